@@ -302,7 +302,7 @@ func runC03Relaxed(c *Ctx) {
 	ev := newRecEvaluator()
 	minors := interestingMinors(false)
 	cat := catalogPods()
-	n := sizes(c, 400, 6000)
+	n := sizes(c, 1500, 12000)
 	policy.RelaxPolicyForUserNamespacePods(true)
 	defer policy.RelaxPolicyForUserNamespacePods(false)
 	var ops []J
